@@ -133,7 +133,7 @@ CHECKS["C12"] = (
     "run and listed in known_findings.txt (11 keys); the views of a completed flow are projections of one session record "
     "(C12_views_agree, _partial for response type id_token). Correspondence: discovery, registration, authorization via plain / "
     "request / request_uri / PAR, token, userinfo, introspection and refresh between the real client and the real provider, outcome "
-    "and every view compared with the model.",
+    "and every view compared with the model. Requested versus granted scope: granted = filter_scopes provider allowed requested (op_scopes regenerated), every view that states a scope states the granted one (C12_scope_views_granted), unknown scopes are dropped (C12_unknown_scopes_dropped), refreshes that narrow the scope (C12_refresh_scope, C12_views_after_scoped_refresh); flows with scopes unknown to the provider / outside allowed_scopes / narrowed at refresh.",
     LEVEL_NOTE_COMMON + "Real cryptography of each algorithm pair is exercised by the flows, not proved (partial). Dynamic "
     "registration and request-object algorithms other than RS256 are not modelled.",
     "DESIGN.md §6 C12")
@@ -188,7 +188,7 @@ CHECKS["C17"] = (
     "modes for unrestricted values (guards only on the type/timestamp, each with a _refuted witness reproduced on the real code); with the "
     "handler keys unpublished, any derivable cookie that parses has the content of a genuine cookie (four tamper-evidence theorems). "
     "client/cookie.py: round trip + partial tamper theorem with _refuted witness (known findings client-cookie-boundary-shift, "
-    "client-cookie-rt-bar).",
+    "client-cookie-rt-bar). Several cookies in one parse_cookie call (list model parse_cookies): the result is exactly each named cookie's own parse at its position, forged cookies contribute nothing, order only permutes (C17_list_compositional, C17_list_raises, C17_list_order, C17_list_roundtrip, four C17_list_tamper_evident_* theorems); jars of genuine and forged cookies in every order on the real handlers.",
     LEVEL_NOTE_COMMON + "HMAC, AES-GCM and Fernet idealised (symbolic); byte-level mutations are exercised, not proved.",
     "DESIGN.md §6 C17")
 
@@ -205,7 +205,7 @@ CHECKS["C04"] = (
     "strings. Correspondence: genuine and re-signed JWTs (provider keys, client secrets, client-registered keys, fresh keys x five "
     "issuer claims) presented to the real JWT handlers vs. the key-jar model; real tokens decrypted with the handler's key vs. the model's "
     "lv_pack(rnd,class,sid,exp); info() matrix handler x class x shared/distinct keys. Oracle: genuine tokens of all classes in all slots "
-    "of userinfo/introspection/token endpoint on 3 provider variants, another instance's tokens, ~15-80 byte-level mutants and ~30 key-confusion forgeries per token.",
+    "of userinfo/introspection/token endpoint on 3 provider variants, another instance's tokens, ~15-80 byte-level mutants and ~30 key-confusion forgeries per token. Tokens as bearer_header / bearer_body CLIENT credential: slot model (SBearer resolves through the access-token handler only, SGeneric through the ordered fall-through) with C04_bearer_credential_only_access_token, C04_bearer_credential_authenticates_its_client, C04_bearer_credential_unforgeable(_jwt) and the refuted variant C04_bearer_by_generic_lookup_refuted; every token of every class, other sessions / providers, mutants, forgeries and dead access tokens offered as bearer credential at every endpoint before and after a generic lookup.",
     LEVEL_NOTE_COMMON + "Partial: byte-level integrity (bit flips, truncation, re-encoding) rests on the AE/JWS idealisation and is exercised on the real libraries, not proved.",
     "DESIGN.md §6 C04")
 
@@ -218,7 +218,7 @@ CHECKS["C07"] = (
     "specs) and released claims of ~400 (quick) generated configurations x scopes x claims requests x release points vs. the real "
     "ClaimsInterface. Oracle: attributes found in real userinfo responses, ID Tokens, introspection responses and JWT access tokens lie "
     "within the bound recomputed from the configuration; foreign-audience introspection and dead tokens release nothing; the same flow "
-    "releases the same on a long-lived and a fresh provider.",
+    "releases the same on a long-lived and a fresh provider. The token scope is an argument of its own (get_claims_tok, release_tok): what is released follows the PRESENTED token's scope, not the grant's (C07_token_scope_bound, C07_grant_scope_irrelevant), and a narrower token scope never releases more (C07_narrower_token_never_more); down-scoped tokens (refresh with narrower scope, refresh of a refresh, token exchange) are read at userinfo, introspection and as JWT / ID Token.",
     LEVEL_NOTE_COMMON + "The user database is an arbitrary function; 'nothing for an invalid token' rests on C03/C04; history independence on C20 (both probed by the oracle).",
     "DESIGN.md §6 C07")
 
